@@ -9,7 +9,9 @@ enumerated input (write sequences with repeated keys x issue gaps) and every con
 (primary-backup: mode x #backups; chain: length x CRAQ; multi-leader: #leaders x writer
 placement x EVERY conflict resolver the library ships (LastWriterWins, VectorClockMerge with and
 without merge_fn, CustomResolver) x write instants including exact ties between different leaders
-(distinct and equal values), anti-entropy peer picks owned through ``random.choice``).
+(distinct and equal values), anti-entropy peer picks owned through ``random.choice``; with 3 leaders
+and tied writes an extra anti-entropy round is fired DURING replication at every leader, so that a
+version can be relayed by a third leader before the original reaches its destination).
 An auxiliary driver (``resolvers``) folds all pairs/triples of concurrent versions through each
 resolver in every arrival order — argument-order independence is a lemma of the convergence
 clause; the deciding check stays the replica-level one.
@@ -33,7 +35,8 @@ Oracle clauses (each tied to a phrase of the statement):
 
 Where the statement is silent the check is silent: ASYNC acks, reads in primary-backup /
 multi-leader, liveness (an un-acked write is only counted), divergence of multi-leader replicas
-*before* anti-entropy has run (counted in the evidence, not a violation), reads sent to a
+*before* anti-entropy has run (counted in the evidence, not a violation), leaders that agree on
+every value but publish different version metadata (counted, not a violation), reads sent to a
 non-tail node of a chain with CRAQ disabled (documented usage is "tail reads only").
 """
 from __future__ import annotations
@@ -975,7 +978,7 @@ def plan(tier):
                     two = ml_inputs((2,), G, 3)
                     three = ml_inputs((3,), (0, 1), 3)
                     inps = ml_inputs((2,), G, 3, early=main_res) + three + with_early_rounds(two, 3, (2, 4, 6))
-                    if res in ("lww", "vcmerge"):
+                    if main_res:
                         inps = inps + with_early_rounds(three, 3, (2, 6))
                 for inp in inps:
                     if q:
@@ -1006,7 +1009,7 @@ def plan(tier):
                                              "; 3 leaders: whenever two leaders write one key at the same instant, one "
                                              "extra round fired DURING replication at every leader x offset "
                                              + ("{2,6} ticks after the writes (lww at bound 3, vcmerge at bound 2; 2 writes)" if q else
-                                                "{2,4,6} (all resolvers, 2 writes, bound 3) / {2,6} (lww, vcmerge, 3 writes, "
+                                                "{2,4,6} (all resolvers, 2 writes, bound 3) / {2,6} (lww, 3 writes, "
                                                 "bound 2)") + ", peer pick and message delays explored",
                              "delay_assignments": ("deviation bound 3 for lww, 2 for the other resolvers" if q else
                                                    "lww: deviation bound 5 (3 leaders: 4 for 2 writes, 3 for 3 writes); "
